@@ -120,3 +120,24 @@ def level1_table(project):
                 return name, None, v
             return name, rows, v
     return None, None, None
+
+
+def tile_construction_sites(project):
+    """Every place that makes a Tile with corners: `Tile(...)` calls and `<tile>._replace(corners=...)` / `Tile._make(...)`.
+    -> [(Func, call node, kind)]  (the documented corner-less level-0 tile is excluded)"""
+    from sa.model import own_calls
+    out = []
+    for f in project.py_funcs():
+        for c in own_calls(f.node):
+            d = dotted(c.func) or ""
+            last = d.split(".")[-1]
+            if last == "Tile" and (c.args or c.keywords):
+                corners = c.args[1] if len(c.args) > 1 else next((k.value for k in c.keywords if k.arg == "corners"), None)
+                if isinstance(corners, ast.Tuple) and all(isinstance(e, ast.Constant) and e.value is None for e in corners.elts):
+                    continue
+                out.append((f, c, "Tile(...)"))
+            elif last == "_replace" and any(k.arg == "corners" for k in c.keywords):
+                out.append((f, c, "._replace(corners=...)"))
+            elif d.endswith("Tile._make"):
+                out.append((f, c, "Tile._make(...)"))
+    return out
